@@ -94,3 +94,37 @@ Proof.
      split; [intros E; discriminate E|]; split; [vm_compute; reflexivity|]; split; [vm_compute; reflexivity|];
      split; [intros E; discriminate E|vm_compute; reflexivity]).
 Qed.
+
+(* ---- with the dependency order in between (Dep/AnnOrder.v) ----
+   compile_after_order (Types/Tc.v) is "type-check, then lower what was given": it does NOT contain the ordering step of
+   compiler.rs (initialization_order + the types-first sort), which runs between name resolution and the type checker.
+   That step is Dep/Topo.v init_order; here it is put in between. *)
+From Sylt Require Import Dep.Deps Dep.Topo Dep.AnnOrder.
+
+Theorem resolver_order_backend_erase fl tgt fuel req ast r1 r2 l1 :
+  resolve fl ast = Resolver.Ok r1 ->
+  resolve fl (erase_all_annotations ast) = Resolver.Ok r2 ->
+  ann_deps_ok tgt (r_stmts r1) = true -> ann_deps_ok tgt (r_stmts r2) = true ->
+  init_order tgt (r_stmts r1) = OOk l1 ->
+  exists l2, init_order tgt (r_stmts r2) = OOk l2
+    /\ Emit.backend fuel req (mkResolved (r_vars r1) l1) = Emit.backend fuel req (mkResolved (r_vars r2) l2).
+Proof.
+  intros R1 R2 O1 O2 H1.
+  destruct (resolve_erase_all fl ast r1 R1) as (r' & E & S). rewrite E in R2. inversion R2; subst.
+  exact (order_then_backend_erase_ok tgt fuel req r1 r2 l1 S O1 O2 H1).
+Qed.
+
+(* the seed's program: the hypotheses hold and the ordered programs emit the same text *)
+Example seed_order_example :
+  exists r1 r2 l1 l2,
+    resolve (mkFlags true true true false false) seed_annotated = Resolver.Ok r1
+    /\ resolve (mkFlags true true true false false) seed_plain = Resolver.Ok r2
+    /\ ann_deps_ok true (r_stmts r1) = true /\ ann_deps_ok true (r_stmts r2) = true
+    /\ init_order true (r_stmts r1) = OOk l1 /\ init_order true (r_stmts r2) = OOk l2
+    /\ Emit.backend 20 None (mkResolved (r_vars r1) l1) = Emit.backend 20 None (mkResolved (r_vars r2) l2).
+Proof.
+  eexists. eexists. eexists. eexists.
+  split; [vm_compute; reflexivity|]. split; [vm_compute; reflexivity|].
+  split; [vm_compute; reflexivity|]. split; [vm_compute; reflexivity|].
+  split; [vm_compute; reflexivity|]. split; [vm_compute; reflexivity|]. vm_compute. reflexivity.
+Qed.
